@@ -229,7 +229,8 @@ fn c18_o2_learning_from_requests() {
 //@ tier: thorough
 //@ cap: 2400
 //@ standins: tracing lru vcoll
-//@ desc: adaptive chain, step 1: when a finished lookup's best-voted address differs from the known public address (or none is known) cleanup_done_queries returns it for a confirming self-ping, records it and sets firewalled; when it equals the known address nothing is returned and the flags are unchanged; without votes nothing happens
+//@ also: C14 C20
+//@ desc: adaptive chain, step 1: when a finished lookup's best-voted address differs from the known public address (or none is known) cleanup_done_queries returns it for a confirming self-ping, records it and sets firewalled; when it equals the known address nothing is returned and the flags are unchanged; without votes nothing happens; the finished lookup leaves the active set and does not restart the 5-minute ping / 15-minute refresh timers (a find_node for an arbitrary target is not a table refresh)
 //@ bounds: one finished lookup with 0 or 1 voted address (symbolic), public_address None / Some(symbolic), firewalled symbolic; unwind 26
 //@ stubs: Core::cache_iterative_query -> skipped (lookup cache and statistics are C20.O1); Instant::now; getrandom::fill
 //@ functions: Core::cleanup_done_queries, Core::update_address_votes_from_iterative_query, IterativeQuery::best_address
@@ -534,27 +535,37 @@ fn expected_counts(kinds: &[Option<u8>; 2]) -> (usize, usize, usize, usize) {
     (a, b, c, d)
 }
 
-//@ ob: C20.O1
-//@ tier: off
-//@ cap: 2700
-//@ mem: 20
-//@ standins: tracing lru vcoll
-//@ desc: statistics pairing: after caching one finished lookup and then a second one (same target = replacement, or a different target), the per-table sample counters (dht size estimates count, responders samples count, subnets sum) equal the aggregate over the lookups currently cached -- find_node lookups count only towards the basic estimate, get_signed_peers lookups only towards the signed-peers table -- and no counter underflows
-//@ bounds: two cache steps; lookup kinds symbolic among find_node / get_peers / get_signed_peers / get (4 x 4); second target same or different; each lookup has one concrete candidate and zero or one responder (so the f64 estimates are constants); cache capacity stand-in 4; unwind 26
-//@ outside: f64 sums are not compared bit for bit (float addition is not associative); rolling the 1000-entry cache (replacement of an existing key exercises the same decrement path)
-//@ stubs: ClosestNodes::dht_size_estimate -> constant (the f64 estimate values are outside; the counters and subnet sums are real); Instant::now; getrandom::fill
-//@ functions: Core::{cache_iterative_query, decrement_cached_iterative_query_stats}, RoutingTable::{increment_responders_stats, increment_dht_size_estimate, decrement_*}, ClosestNodes::{dht_size_estimate, subnets_count}
-#[kani::proof]
-#[kani::stub(std::time::Instant::now, clock::now)]
-#[kani::stub(getrandom::fill, rnd::fill)]
-#[kani::stub(crate::common::closest_nodes::ClosestNodes::dht_size_estimate, dse_const)]
-#[kani::unwind(26)]
-fn c20_o1_stats_pairing() {
+/// `RequestTypeSpecific::clone` for the lookup kinds (no boxed slices): the derived clone of an
+/// enum that lives on the heap is executed for every variant, the put variant's boxed token and
+/// value included (symbolic-size allocations); a put variant or a salted get here is a flagged cut
+fn request_type_clone_lookup(r: &RequestTypeSpecific) -> RequestTypeSpecific {
+    match r {
+        RequestTypeSpecific::Ping => RequestTypeSpecific::Ping,
+        RequestTypeSpecific::FindNode(a) => RequestTypeSpecific::FindNode(FindNodeRequestArguments { target: a.target }),
+        RequestTypeSpecific::GetPeers(a) => RequestTypeSpecific::GetPeers(GetPeersRequestArguments { info_hash: a.info_hash }),
+        RequestTypeSpecific::GetSignedPeers(a) => RequestTypeSpecific::GetSignedPeers(GetPeersRequestArguments { info_hash: a.info_hash }),
+        RequestTypeSpecific::GetValue(a) if a.salt.is_none() => RequestTypeSpecific::GetValue(GetValueRequestArguments { target: a.target, seq: a.seq, salt: None }),
+        _ => {
+            cut();
+            RequestTypeSpecific::Ping
+        }
+    }
+}
+
+fn stats_pairing(fix: Option<(u8, u8)>) {
     clock::set(0);
     let mut core = new_core(false, vec![]);
-    let k1: u8 = kani::any();
-    let k2: u8 = kani::any();
-    kani::assume(k1 < 4 && k2 < 4);
+    // lookup kinds: fixed per instance (a symbolic request kind makes every move and clone of the
+    // request enum a case split over all variants) or symbolic (the all-in-one harness)
+    let (k1, k2): (u8, u8) = match fix {
+        Some(p) => p,
+        None => {
+            let a: u8 = kani::any();
+            let b: u8 = kani::any();
+            kani::assume(a < 4 && b < 4);
+            (a, b)
+        }
+    };
     let same: bool = kani::any();
     let r1: bool = kani::any();
     let r2: bool = kani::any();
@@ -580,10 +591,135 @@ fn c20_o1_stats_pairing() {
     assert!(m.2 == em && s.2 == es, "C20.O1 subnets sum equals the aggregate over cached lookups");
     assert!(core.cached_iterative_queries.len() == if same { 1 } else { 2 }, "C20.O2 cache holds one entry per target");
     assert!(!cut_reached(), "CUT: random bytes exhausted");
-    kani::cover!(same && k1 == 0 && k2 == 3);
-    kani::cover!(!same && k1 == 2 && k2 == 0);
-    kani::cover!(same && k1 == 3 && k2 == 0);
+    if fix.is_none() {
+        kani::cover!(same && k1 == 0 && k2 == 3);
+        kani::cover!(!same && k1 == 2 && k2 == 0);
+        kani::cover!(same && k1 == 3 && k2 == 0);
+    }
+    kani::cover!(same && r1 && !r2);
+    kani::cover!(!same && !r1 && r2);
     std::mem::forget(q1);
     std::mem::forget(q2);
     std::mem::forget(core);
 }
+
+//@ ob: C20.O1
+//@ tier: off
+//@ cap: 2700
+//@ mem: 20
+//@ standins: tracing lru vcoll
+//@ desc: statistics pairing: after caching one finished lookup and then a second one (same target = replacement, or a different target), the per-table sample counters (dht size estimates count, responders samples count, subnets sum) equal the aggregate over the lookups currently cached -- find_node lookups count only towards the basic estimate, get_signed_peers lookups only towards the signed-peers table -- and no counter underflows
+//@ bounds: two cache steps; lookup kinds symbolic among find_node / get_peers / get_signed_peers / get (4 x 4); second target same or different; each lookup has one concrete candidate and zero or one responder (so the f64 estimates are constants); cache capacity stand-in 4; unwind 26
+//@ outside: f64 sums are not compared bit for bit (float addition is not associative); rolling the 1000-entry cache (replacement of an existing key exercises the same decrement path)
+//@ stubs: ClosestNodes::dht_size_estimate -> constant (the f64 estimate values are outside; the counters and subnet sums are real); Instant::now; getrandom::fill
+//@ functions: Core::{cache_iterative_query, decrement_cached_iterative_query_stats}, RoutingTable::{increment_responders_stats, increment_dht_size_estimate, decrement_*}, ClosestNodes::{dht_size_estimate, subnets_count}
+#[kani::proof]
+#[kani::stub(std::time::Instant::now, clock::now)]
+#[kani::stub(getrandom::fill, rnd::fill)]
+#[kani::stub(crate::common::closest_nodes::ClosestNodes::dht_size_estimate, dse_const)]
+#[kani::stub(<crate::common::RequestTypeSpecific as std::clone::Clone>::clone, request_type_clone_lookup)]
+#[kani::unwind(26)]
+fn c20_o1_stats_pairing() {
+    stats_pairing(None);
+}
+
+//@ ob: C20.O1a
+//@ tier: thorough
+//@ cap: 2400
+//@ mem: 24
+//@ standins: tracing lru vcoll
+//@ desc: statistics pairing, instance find_node then get_value: after caching the first finished lookup and then the second (same target = replacement of the cached entry, or a different target; each with or without a responder), every per-table counter (dht size samples, responders samples, subnets sum) equals the aggregate over the lookups currently cached -- the replaced entry is subtracted from the table and branch chosen by ITS OWN request kind -- and nothing underflows
+//@ bounds: as C20.O1 with the two lookup kinds fixed; same / different target, responder presence symbolic
+//@ outside: as C20.O1
+//@ stubs: as C20.O1; <RequestTypeSpecific as Clone>::clone -> variant-wise copy for the lookup kinds (put variant: flagged cut)
+//@ functions: Core::{cache_iterative_query, decrement_cached_iterative_query_stats}, RoutingTable::{increment_*, decrement_*}, ClosestNodes::subnets_count
+#[kani::proof]
+#[kani::stub(std::time::Instant::now, clock::now)]
+#[kani::stub(getrandom::fill, rnd::fill)]
+#[kani::stub(crate::common::closest_nodes::ClosestNodes::dht_size_estimate, dse_const)]
+#[kani::stub(<crate::common::RequestTypeSpecific as std::clone::Clone>::clone, request_type_clone_lookup)]
+#[kani::unwind(26)]
+fn c20_o1a_stats_find_then_get() {
+    stats_pairing(Some((0, 3)));
+}
+
+//@ ob: C20.O1b
+//@ tier: thorough
+//@ cap: 2400
+//@ mem: 24
+//@ standins: tracing lru vcoll
+//@ desc: statistics pairing, instance get_value then find_node: after caching the first finished lookup and then the second (same target = replacement of the cached entry, or a different target; each with or without a responder), every per-table counter (dht size samples, responders samples, subnets sum) equals the aggregate over the lookups currently cached -- the replaced entry is subtracted from the table and branch chosen by ITS OWN request kind -- and nothing underflows
+//@ bounds: as C20.O1 with the two lookup kinds fixed; same / different target, responder presence symbolic
+//@ outside: as C20.O1
+//@ stubs: as C20.O1; <RequestTypeSpecific as Clone>::clone -> variant-wise copy for the lookup kinds (put variant: flagged cut)
+//@ functions: Core::{cache_iterative_query, decrement_cached_iterative_query_stats}, RoutingTable::{increment_*, decrement_*}, ClosestNodes::subnets_count
+#[kani::proof]
+#[kani::stub(std::time::Instant::now, clock::now)]
+#[kani::stub(getrandom::fill, rnd::fill)]
+#[kani::stub(crate::common::closest_nodes::ClosestNodes::dht_size_estimate, dse_const)]
+#[kani::stub(<crate::common::RequestTypeSpecific as std::clone::Clone>::clone, request_type_clone_lookup)]
+#[kani::unwind(26)]
+fn c20_o1b_stats_get_then_find() {
+    stats_pairing(Some((3, 0)));
+}
+
+//@ ob: C20.O1c
+//@ tier: thorough
+//@ cap: 2400
+//@ mem: 24
+//@ standins: tracing lru vcoll
+//@ desc: statistics pairing, instance get_peers then get_signed_peers (different tables): after caching the first finished lookup and then the second (same target = replacement of the cached entry, or a different target; each with or without a responder), every per-table counter (dht size samples, responders samples, subnets sum) equals the aggregate over the lookups currently cached -- the replaced entry is subtracted from the table and branch chosen by ITS OWN request kind -- and nothing underflows
+//@ bounds: as C20.O1 with the two lookup kinds fixed; same / different target, responder presence symbolic
+//@ outside: as C20.O1
+//@ stubs: as C20.O1; <RequestTypeSpecific as Clone>::clone -> variant-wise copy for the lookup kinds (put variant: flagged cut)
+//@ functions: Core::{cache_iterative_query, decrement_cached_iterative_query_stats}, RoutingTable::{increment_*, decrement_*}, ClosestNodes::subnets_count
+#[kani::proof]
+#[kani::stub(std::time::Instant::now, clock::now)]
+#[kani::stub(getrandom::fill, rnd::fill)]
+#[kani::stub(crate::common::closest_nodes::ClosestNodes::dht_size_estimate, dse_const)]
+#[kani::stub(<crate::common::RequestTypeSpecific as std::clone::Clone>::clone, request_type_clone_lookup)]
+#[kani::unwind(26)]
+fn c20_o1c_stats_peers_then_signed() {
+    stats_pairing(Some((1, 2)));
+}
+
+//@ ob: C20.O1d
+//@ tier: thorough
+//@ cap: 2400
+//@ mem: 24
+//@ standins: tracing lru vcoll
+//@ desc: statistics pairing, instance get_signed_peers then find_node (different tables): after caching the first finished lookup and then the second (same target = replacement of the cached entry, or a different target; each with or without a responder), every per-table counter (dht size samples, responders samples, subnets sum) equals the aggregate over the lookups currently cached -- the replaced entry is subtracted from the table and branch chosen by ITS OWN request kind -- and nothing underflows
+//@ bounds: as C20.O1 with the two lookup kinds fixed; same / different target, responder presence symbolic
+//@ outside: as C20.O1
+//@ stubs: as C20.O1; <RequestTypeSpecific as Clone>::clone -> variant-wise copy for the lookup kinds (put variant: flagged cut)
+//@ functions: Core::{cache_iterative_query, decrement_cached_iterative_query_stats}, RoutingTable::{increment_*, decrement_*}, ClosestNodes::subnets_count
+#[kani::proof]
+#[kani::stub(std::time::Instant::now, clock::now)]
+#[kani::stub(getrandom::fill, rnd::fill)]
+#[kani::stub(crate::common::closest_nodes::ClosestNodes::dht_size_estimate, dse_const)]
+#[kani::stub(<crate::common::RequestTypeSpecific as std::clone::Clone>::clone, request_type_clone_lookup)]
+#[kani::unwind(26)]
+fn c20_o1d_stats_signed_then_find() {
+    stats_pairing(Some((2, 0)));
+}
+
+//@ ob: C20.O1e
+//@ tier: thorough
+//@ cap: 2400
+//@ mem: 24
+//@ standins: tracing lru vcoll
+//@ desc: statistics pairing, instance get_peers then get_peers: after caching the first finished lookup and then the second (same target = replacement of the cached entry, or a different target; each with or without a responder), every per-table counter (dht size samples, responders samples, subnets sum) equals the aggregate over the lookups currently cached -- the replaced entry is subtracted from the table and branch chosen by ITS OWN request kind -- and nothing underflows
+//@ bounds: as C20.O1 with the two lookup kinds fixed; same / different target, responder presence symbolic
+//@ outside: as C20.O1
+//@ stubs: as C20.O1; <RequestTypeSpecific as Clone>::clone -> variant-wise copy for the lookup kinds (put variant: flagged cut)
+//@ functions: Core::{cache_iterative_query, decrement_cached_iterative_query_stats}, RoutingTable::{increment_*, decrement_*}, ClosestNodes::subnets_count
+#[kani::proof]
+#[kani::stub(std::time::Instant::now, clock::now)]
+#[kani::stub(getrandom::fill, rnd::fill)]
+#[kani::stub(crate::common::closest_nodes::ClosestNodes::dht_size_estimate, dse_const)]
+#[kani::stub(<crate::common::RequestTypeSpecific as std::clone::Clone>::clone, request_type_clone_lookup)]
+#[kani::unwind(26)]
+fn c20_o1e_stats_peers_then_peers() {
+    stats_pairing(Some((1, 1)));
+}
+
